@@ -72,6 +72,10 @@ type PkgDesc struct {
 	// SchemaVariant > 0 adds the config property "extra" (string) with the default "d<variant>" to the manifest's schema:
 	// packages of the same name may differ in their configuration schema (an update that adds a property).
 	SchemaVariant int `json:"schemaVariant,omitempty"`
+	// Components > 0 makes the package a multi-component package (spec.components: {}) with that many sub-component
+	// packages under components/<name>/; the root package consists of every file outside that folder - including files
+	// and folders whose names merely start with "components".
+	Components int `json:"components,omitempty"`
 	// Broken injects a structural / validation defect: "", "no-manifest", "two-manifests", "bad-phase",
 	// "missing-phase-annotation", "duplicate-object", "bad-yaml", "bad-template", "missing-key-template"
 	Broken string `json:"broken,omitempty"`
@@ -279,6 +283,9 @@ func (d PkgDesc) ManifestYAML() string {
 	if d.Probes {
 		sb.WriteString("  availabilityProbes:\n  - probes:\n    - condition:\n        type: Available\n        status: \"True\"\n    selector:\n      kind:\n        group: verif.example\n        kind: Widget\n")
 	}
+	if d.Components > 0 {
+		sb.WriteString("  components: {}\n")
+	}
 	sb.WriteString("  config:\n    openAPIV3Schema:\n      type: object\n      properties:\n        label:\n          type: string\n        flag:\n          type: boolean\n")
 	if d.SchemaVariant > 0 {
 		sb.WriteString(fmt.Sprintf("        extra:\n          type: string\n          default: d%d\n", d.SchemaVariant))
@@ -351,6 +358,13 @@ func (d PkgDesc) Build(c PkgCtx) map[string][]byte {
 	if usesHelper {
 		files[helperFile] = []byte(helperContent)
 	}
+	for i := 0; i < d.Components; i++ {
+		name := ComponentName(i)
+		files["components/"+name+"/manifest.yaml"] = []byte("apiVersion: manifests.package-operator.run/v1alpha1\nkind: PackageManifest\nmetadata:\n  name: " + name +
+			"\nspec:\n  scopes:\n  - Namespaced\n  - Cluster\n  phases:\n  - name: cph\n")
+		files["components/"+name+"/obj.yaml"] = []byte("apiVersion: v1\nkind: ConfigMap\nmetadata:\n  name: in-" + name +
+			"\n  annotations:\n    package-operator.run/phase: cph\ndata:\n  component: " + name + "\n")
+	}
 	switch d.Broken {
 	case "bad-yaml":
 		files["zz-broken.yaml"] = []byte("apiVersion: v1\nkind: ConfigMap\nmetadata:\n  name: [unclosed\n")
@@ -371,6 +385,9 @@ func (d PkgDesc) Build(c PkgCtx) map[string][]byte {
 	}
 	return files
 }
+
+// ComponentName names the i-th sub-component of a multi-component package.
+func ComponentName(i int) string { return "comp-" + string(rune('a'+i)) }
 
 // pathLess is the "/"-aware path order the statement names (path-then-document order).
 func pathLess(a, b string) bool {
@@ -482,13 +499,20 @@ func GenPkg(t *rapid.T, maxFiles int) PkgDesc {
 		return rapid.SampledFrom(opts).Draw(t, "condref")
 	}
 	dirs := []string{"", "a/", "a/b/", "b/", "a-b/", "a.b/"}
+	bases := []string{"x", "y", "z", "x-1", "x.1"}
+	if rapid.IntRange(0, 3).Draw(t, "multicomponent") == 0 {
+		d.Components = rapid.IntRange(1, 2).Draw(t, "ncomponents")
+		// root files living next to the components folder under similar names
+		dirs = append(dirs, "components-x/", "componentsx/", "")
+		bases = append(bases, "components", "components-rbac")
+	}
 	nf := rapid.IntRange(1, maxFiles).Draw(t, "nfiles")
 	names := map[string]bool{}
 	paths := map[string]bool{}
 	objSeq := 0
 	for i := 0; i < nf; i++ {
 		f := PkgFile{Template: rapid.IntRange(0, 2).Draw(t, "tmpl") > 0, EmptyDocs: rapid.IntRange(0, 4).Draw(t, "emptydocs") == 0}
-		f.Path = rapid.SampledFrom(dirs).Draw(t, "dir") + rapid.SampledFrom([]string{"x", "y", "z", "x-1", "x.1"}).Draw(t, "base") + rapid.SampledFrom([]string{".yaml", ".yml"}).Draw(t, "ext")
+		f.Path = rapid.SampledFrom(dirs).Draw(t, "dir") + rapid.SampledFrom(bases).Draw(t, "base") + rapid.SampledFrom([]string{".yaml", ".yml"}).Draw(t, "ext")
 		if paths[f.Path] || paths[strings.TrimSuffix(strings.TrimSuffix(f.Path, ".yaml"), ".yml")] {
 			continue
 		}
